@@ -24,7 +24,7 @@ import (
 var simCountHook func()
 
 func init() {
-	register(&Scenario{Name: "sysfault", Props: []string{"C03", "C13"}, Kind: "system", Run: runSysFault})
+	register(&Scenario{Name: "sysfault", Props: []string{"C03", "C13", "C01"}, Kind: "system", Run: runSysFault})
 	// innermost counting plugin: requests that reached the balancer (public registration API)
 	plugins.RegisterBuiltin("sim-count", func(name string, cfg map[string]interface{}) (plugins.Middleware, error) {
 		return func(next http.Handler) http.Handler {
@@ -289,6 +289,16 @@ func runSysFault(x *X) {
 			// request ends when that timeout fires (twice the dial+read allowance covers one
 			// transparent retry on a stale pooled connection), not at some later, larger timeout
 			x.Violate("C03", "C03/backend-timeout-not-applied{hang-headers}", "exchange %d: the backend never sent a response head; the request ended after %v although backend_dial=%ds and backend_read=%ds (allowed here: %v)", ex.id, d, to.BackendDial, to.BackendRead, hb)
+		}
+		// C01: a response the backend did not finish (it closed the connection before the declared
+		// length or the last chunk, or stalled until Helios gave up on it) is not presented to the
+		// client as a complete one: the client must be able to tell, whatever the framing
+		if (faults[i] == "short-body" || faults[i] == "stall-mid-body") && ex.method != "HEAD" && ex.resp != nil && ex.got != nil && ex.got.status == 200 {
+			if ex.got.err == "" {
+				x.Violate("C01", "C01/truncated-response-presented-as-complete{"+faults[i]+","+ex.resp.framing+"}", "exchange %d: the backend ended its %s-framed response early (fault %s); the client received status 200 and %d body bytes followed by a clean end of the response", ex.id, ex.resp.framing, faults[i], len(ex.got.body))
+			} else {
+				x.Probe("truncated-response-seen-as-truncated")
+			}
 		}
 		if faults[i] == "none" && ex.got != nil && ex.got.err == "" && ex.got.status == 200 {
 			x.Probe("clean-exchange-ok")
